@@ -17,7 +17,8 @@ RULE = (
     "Negative: CAN bindings of 65..72 and {80, 96, 127, 128, 129, 200} bits with the excess in the "
     "first / middle / last scalar, a nested struct, an (unrolled) array or an enum, and CAN bindings "
     "with a str / dynamic array / optional at every field position, inside nested structs and arrays; "
-    "alone and mixed with 1-3 well-formed bindings.  fcp_dbc.Generator().generate must fail "
+    "alone and mixed with 1-3 well-formed bindings, also as renamed bindings (impl can for S as Name) and "
+    "through a GeneratorManager that has already served a dbc request.  fcp_dbc.Generator().generate must fail "
     "(exception or Err); GeneratorManager.generate('can_c') must fail and leave the output directory "
     "untouched (audit-hook event log + snapshot).  Positive (57..64 bits and random fitting CAN "
     "schemas): both generators succeed and every generated DBC (read by cantools and by the own "
@@ -128,8 +129,8 @@ def variable_struct(r, name, kind):
     return decls, pos
 
 
-def can_impl(name, fid, device="ecu"):
-    return {"kind": "impl", "protocol": "can", "type": name, "name": None, "items": [("field", "id", fid), ("field", "device", ("s", device))]}
+def can_impl(name, fid, device="ecu", alias=None):
+    return {"kind": "impl", "protocol": "can", "type": name, "name": alias, "items": [("field", "id", fid), ("field", "device", ("s", device))]}
 
 
 def good_bindings(r, k, start_id):
@@ -154,10 +155,20 @@ def attempt_dbc(fcp):
     return ("files", list(out))
 
 
-def attempt_c(fcp, root):
+def attempt_c(fcp, root, warm_up=None):
+    """warm_up: a tree on which the SAME GeneratorManager first runs the dbc generator (into a scratch
+    directory, result ignored) before it is asked for can_c - a long-lived manager serving several
+    generate requests."""
     from fcp.codegen import GeneratorManager
     from fcp.verifier import make_general_verifier
 
+    manager = GeneratorManager(make_general_verifier())
+    if warm_up is not None:
+        try:
+            manager.generate("dbc", None, None, warm_up, os.path.join(root, "warmup"))
+        except Exception:
+            pass
+        shutil.rmtree(os.path.join(root, "warmup"), ignore_errors=True)
     out_dir = os.path.join(root, "out")
     if os.path.exists(out_dir):
         shutil.rmtree(out_dir)
@@ -168,7 +179,7 @@ def attempt_c(fcp, root):
     res = None
     with audit.Recorder() as rec:
         try:
-            res = GeneratorManager(make_general_verifier()).generate("can_c", None, None, fcp, out_dir)
+            res = manager.generate("can_c", None, None, fcp, out_dir)
         except Exception as e:
             raised = e
     after = audit.snapshot(out_dir)
@@ -267,7 +278,7 @@ def scan_c(run, source, case):
     return True
 
 
-def judge(run, decls, expect_reject, what, root, scan=True):
+def judge(run, decls, expect_reject, what, root, scan=True, warm_up=False):
     text = S.print_schema(decls)
     case = {"schema": text, "what": what}
     res = CC.parse(text)
@@ -292,7 +303,10 @@ def judge(run, decls, expect_reject, what, root, scan=True):
             if not scan_dbc(run, str(f["contents"]), dict(case, dbc=str(f["contents"]))):
                 return
     # ---- C through the generate command path
-    res_c, raised, before, after, muts, out_dir = attempt_c(CC.parse(text).unwrap(), root)
+    warm = CC.parse(text).unwrap() if warm_up else None
+    if warm_up:
+        run.count("c_attempts_on_a_reused_manager")
+    res_c, raised, before, after, muts, out_dir = attempt_c(CC.parse(text).unwrap(), root, warm)
     run.count("c_attempts")
     if expect_reject:
         ok = raised is None and type(res_c).__name__ == "Ok"
@@ -334,12 +348,13 @@ def run(run):
                         continue
                     decls = sized_struct(r, "Big", total, placement)
                     mixed = r.random() < 0.5
-                    body = decls + [can_impl("Big", 100)]
+                    alias = "BigFrame" if r.random() < 0.35 else None
+                    body = decls + [can_impl("Big", 100, alias=alias)]
                     if mixed:
                         g = good_bindings(r, r.randint(1, 3), 200)
                         body = g + body if r.random() < 0.5 else body + g
                     klass = "fits" if total <= 64 else "oversize"
-                    judge(run, body, total > 64, "%s %d bits, excess in %s, %s" % (klass, total, placement, "mixed" if mixed else "alone"), root)
+                    judge(run, body, total > 64, "%s %d bits, excess in %s, %s%s" % (klass, total, placement, "mixed" if mixed else "alone", ", binding renamed" if alias else ""), root, warm_up=(idx % 3 == 0))
             for kind in VARKINDS:
                 for k in range(run.pick(2, 6)):
                     idx += 1
@@ -403,7 +418,7 @@ def run(run):
 
 
 def conclude(run):
-    run.require("dbc_attempts", "dbc_rejections", "c_attempts", "c_rejections", "dbc_messages_scanned", "c_messages_scanned")
+    run.require("dbc_attempts", "dbc_rejections", "c_attempts", "c_rejections", "dbc_messages_scanned", "c_messages_scanned", "c_attempts_on_a_reused_manager")
 
 
 def replay(run, case):
